@@ -18,6 +18,7 @@ def run(ctx):
     ctx.uses('simulator', 'pubsub', 'interfaces')
     ctx.trust('threading.Event contract (set/clear/wait)')
     sc = S.SimCtx(ctx.prog)
+    S.shared_state(ctx, sc, 'R4.10')
     S.r41_refuse_before_effect(ctx, sc)
     S.r42_admission_tables(ctx, sc)
     S.r43_notifications(ctx, sc)
@@ -29,3 +30,5 @@ def run(ctx):
     # time-changed notifications carry non-decreasing times: every clock write is monotone (shared rule with C02)
     S.r25_monotone_clock(ctx, sc)
     S.time_changed_sites(ctx, sc, 'R4.9')
+    # an accepted command takes effect as requested: start / run_up_to / run_up_to_including run with their own bound (shared with C03)
+    S.r31_horizon(ctx, sc)
